@@ -18,6 +18,7 @@ LEVEL_NOTE = ("Not decided: that the `regex` crate returns leftmost matches, and
 LEVEL_TEXT += (" (C10.rx) an arm's regex is Regex::new of the parsed pattern string with no builder options, so leftmost-match semantics are the regex crate's defaults.")
 
 
+LEVEL_TEXT += (" The `$n` binding loop dominates the construction of the arm's context.")
 def run(prog, rep):
     rep.rule("E3.s-scan", "both scan loops have features F1-F7 (guard, slice match, empty-match error, (start, arm) sort key, "
                           "first candidate, advance by group-0 end, $k binding) and the two modes agree on them")
